@@ -180,6 +180,10 @@ def oplists_from_hists(pid, hists, cmaps, rng, limit):
                 if op["k"] == "add":
                     ops2.append({"k": "fresh", "i": op["i"]})
             ops = ops2
+        if pid in ("C10", "C11", "C12") and k % 2:
+            for op in ops:
+                if op["k"] in ("remap_curie", "remap_uri", "rewire"):
+                    op["m"] = list(reversed(op["m"]))      # the same dictionary, listed tail first
         if pid == "C12":
             ops2 = []
             for op in ops:
@@ -269,6 +273,21 @@ def random_oplists(pid, rng, n):
             rng.shuffle(sh)
             ops.append({"k": "new", "recs": sh, "delim": delim})
             ops.append({"k": "load", "loader": "epm", "data": recs, "delim": delim})
+            if rng.random() < 0.5:
+                # records with a HISTORY: a strict converter, a merge into one of its records, then the same Record
+                # objects (plus a record claiming what was merged, or something fresh) go through the constructor again
+                base, upool2, ppool2 = strict_set(rng, delim, rng.randrange(1, 4))
+                if base:
+                    ops.append({"k": "new", "recs": base, "delim": delim})
+                    v = rng.choice(base)
+                    syn_p, syn_u = "hist" + rng.choice(["A", "a", ""]), "http://hist.example/" + rng.choice(["x/", "X/"])
+                    ops.append({"k": "add", "i": "last", "rec": {"p": v["p"], "u": v["u"], "ps": [syn_p], "us": [syn_u], "pat": None},
+                                "cs": True, "mg": True, "via": rng.choice(["record", "prefix"])})
+                    claim = rng.choice([{"p": syn_p, "u": "http://other.example/1/", "ps": [], "us": [], "pat": None},
+                                        {"p": "other1", "u": syn_u, "ps": [], "us": [], "pat": None},
+                                        {"p": "other2", "u": "http://other.example/2/", "ps": [syn_p], "us": [], "pat": None},
+                                        {"p": "fresh3", "u": "http://other.example/3/", "ps": [], "us": [], "pat": None}])
+                    ops.append({"k": "reuse", "i": "last", "recs": [claim]})
             if all(not r["ps"] and not r["us"] for r in recs) and len({r["p"] for r in recs}) == len(recs):
                 ops.append({"k": "load", "loader": "prefix_map", "data": [[r["p"], r["u"]] for r in recs], "delim": delim})
         elif pid == "C05":
@@ -307,7 +326,13 @@ def random_oplists(pid, rng, n):
                     U |= au
                     recs.append(r)
                 allrecs.append(recs)
-                ops.append({"k": "new", "recs": recs, "delim": delim})
+                if recs and rng.random() < 0.4:
+                    # built incrementally: the indexes are maintained by _index, not by the constructor
+                    ops.append({"k": "new", "recs": recs[:1], "delim": delim})
+                    for r in recs[1:]:
+                        ops.append({"k": "add", "i": "last", "rec": r, "cs": True, "mg": False, "via": rng.choice(["record", "prefix"]) if r["pat"] is None else "record"})
+                else:
+                    ops.append({"k": "new", "recs": recs, "delim": delim})
             known_p = sorted({x for recs in allrecs for r in recs for x in (r["p"], *r["ps"])})
             known_u = sorted({x for recs in allrecs for r in recs for x in (r["u"], *r["us"])})
             names = known_p + ["new1", "new2", "zz"]
@@ -338,11 +363,42 @@ def random_oplists(pid, rng, n):
                     for _ in range(rng.randrange(1, 3)):
                         r = rand_record(rng, delim, upool, ppool)
                         ops.append({"k": "add", "i": "last", "rec": r, "cs": True, "mg": True, "via": rng.choice(["record", "prefix"])})
+            if pid == "C10" and rng.random() < 0.6:
+                # derive from derived converters, mutate ANY converter afterwards: every live converter is re-observed after every step
+                est = nconv + 2          # optimistic estimate of the number of live converters (ops on missing ones are skipped)
+                for _ in range(rng.randrange(2, 5)):
+                    kind = rng.choice(["chain", "sub", "remap_curie", "remap_uri", "rewire", "add", "add"])
+                    tgt = rng.randrange(1, est + 1)
+                    if kind == "chain":
+                        idxs = rng.sample(range(1, est + 1), rng.randrange(1, min(3, est) + 1))
+                        ops.append({"k": "chain", "is": idxs, "cs": rng.random() < 0.7})
+                        est += 1
+                    elif kind == "sub":
+                        ops.append({"k": "sub", "i": tgt, "P": rng.sample(names, rng.randrange(1, min(4, len(names)) + 1))})
+                        est += 1
+                    elif kind == "remap_curie":
+                        ks = rng.sample(names, rng.randrange(1, min(3, len(names)) + 1))
+                        ops.append({"k": "remap_curie", "i": tgt, "m": [[k, rng.choice(names)] for k in ks]})
+                        est += 1
+                    elif kind in ("remap_uri", "rewire"):
+                        dom = (known_u if kind == "remap_uri" else known_p) + ["unk"]
+                        ks = rng.sample(dom, rng.randrange(1, min(3, len(dom)) + 1))
+                        vs = rng.sample(known_u + ["http://new.example/3/", "http://new.example/4/"], len(ks))
+                        ops.append({"k": kind, "i": tgt, "m": [[a, b] for a, b in zip(ks, vs)]})
+                        est += 1
+                    else:
+                        r = rand_record(rng, delim, upool, ppool)
+                        ops.append({"k": "add", "i": tgt, "rec": r, "cs": rng.random() < 0.8, "mg": True, "via": rng.choice(["record", "prefix"])})
         elif pid == "C13":
           for _rep in range(rng.randrange(1, 4)):
             recs, upool, ppool = strict_set(rng, delim, rng.randrange(1, 5))
             via = rng.choice(["obj", "str", "path", "str"])
             kind = rng.randrange(7)
+            if _rep and rng.random() < 0.6 and ops and ops[-1]["k"] == "load" and recs:
+                v = recs[0]
+                ops.append({"k": "add", "i": "last", "rec": {"p": v["p"], "u": v["u"], "ps": ["merged" + str(_rep)], "us": ["http://merged.example/%d/" % _rep], "pat": None},
+                            "cs": True, "mg": True, "via": "prefix"})
+                ops.append(dict(ops[-2]))
             if kind == 6:
                 # an rdflib graph incl. a default (empty) namespace; rdflib only keeps usable namespaces
                 data = [[r["p"], r["u"]] for r in recs if " " not in r["u"] and r["u"] and all(ch.isalnum() or ch in "._-" for ch in r["p"])]
@@ -397,7 +453,7 @@ SIZES = {
     "quick": {"hist": 100, "random": 60, "mc_timeout": 420, "tr_timeout": 900, "probe_cap": 20, "full_n": 4},
     "thorough": {"hist": 1200, "random": 500, "mc_timeout": 3400, "tr_timeout": 3000, "probe_cap": 28, "full_n": 6},
 }
-CMAPS = {"quick": ["ascii", "unicode", "obo", "dcolon"], "thorough": ["ascii", "unicode", "obo", "dcolon", "tokens"]}
+CMAPS = {"quick": ["ascii", "unicode", "obo", "dcolon", "case"], "thorough": ["ascii", "unicode", "obo", "dcolon", "tokens", "case"]}
 ASSUMPTIONS = [
     "TLC 1.8 and the CommunityModules Json/IOUtils operators are correct",
     "the recorder's projection (public attributes records, prefix_map, synonym_to_prefix, reverse_prefix_map, trie, pattern_map, bimap, get_prefixes) faithfully exposes the converter state",
